@@ -75,7 +75,20 @@ PLAN8 = {
  'W8G-m1': ('G', ['C06']), 'W8G-m2': ('G', ['C06']),
  'W8H-m1': ('H', ['C01']), 'W8H-m2': ('H', ['C01']),
 }
+PLAN9 = {
+ 'W9A-m1': ('A', ['C07']), 'W9A-m2': ('A', ['C07']),
+ 'W9B-m1': ('B', ['C09']), 'W9B-m2': ('B', ['C09']),
+ 'W9C-m1': ('C', ['C05']), 'W9C-m2': ('C', ['C05']),
+ 'W9D-m1': ('D', ['C19']), 'W9D-m2': ('D', ['C19']),
+ 'W9E-m1': ('E', ['C12']), 'W9E-m2': ('E', ['C12']),
+ 'W9F-m1': ('F', ['C17']), 'W9F-m2': ('F', ['C17']),
+ 'W9G-m1': ('G', ['C08']), 'W9G-m2': ('G', ['C08']),
+ 'W9H-m1': ('H', ['C04']), 'W9H-m2': ('H', ['C04']),
+}
 SRC = {}
+for k, (d, checks) in PLAN9.items():
+    PLAN[k] = checks
+    SRC[k] = f'/tmp/mut9-{d}/out/{k.split("-")[1]}'
 for k, (d, checks) in PLAN8.items():
     PLAN[k] = checks
     SRC[k] = f'/tmp/mut8-{d}/out/{k.split("-")[1]}'
